@@ -3,7 +3,8 @@
    Quantification: every importer stream (blocks {cid, size, links}, duplicates allowed) and root, every
    shard limit, every MaxLinks > 0, every script of BlockAllocate answers (e_alloc), of BlockPut outcomes per
    (round, destination) (e_put: ok / daemon error / gorpc error) and of Pin outcomes (e_pin).
-   Premises: `strict` = the importer stops at the first error of DAGService.Add (see importer_swallow_refuted);
+   Premises: `strict` = the importer stops at the first error of DAGService.Add; the theorems below are the
+   `_partial` forms under that guard, importer_swallow_refuted is the refutation without it;
    `sizes_by_cid` = content addressing (equal CIDs, equal sizes). Traces are chronological. *)
 From V Require Import Base.Common Model.C13_Adder Model.C13_Check Model.C13_Spec Proofs.C13_Theorems.
 Open Scope N_scope.
@@ -150,6 +151,20 @@ Theorem ingest_fuel_enough e stream root r t : strict stream -> 0 < e_maxlinks e
   shard_run e stream root = (r, t) -> r <> RErr EFuel.
 Proof. exact (fun H1 H2 H3 => ingest_fuel_enough_l e stream root H1 H2 H3 r t). Qed.
 Print Assumptions ingest_fuel_enough.
+
+(* finding unixfs-balanced-first-leaf-error-swallowed: the guard `strict` cannot be dropped. With an importer that goes on
+   after a failed DAGService.Add of block 1 (first BlockAllocate fails, resp. every destination refuses the
+   first put) the add succeeds, the root 3 is pinned, block 1 is reachable from it and was never delivered
+   (unsharded: never put; sharded: its only put failed, yet the shard pin lists it) *)
+Theorem importer_swallow_refuted :
+  sizes_by_cid swallow_stream /\ link_closed swallow_stream /\ reach swallow_stream 3 1 /\
+  (exists t, single_run swallow_env_alloc swallow_stream 3 = (ROk (CData 3), t) /\ ~ In 1 (data_puts t) /\
+             exists q, In q (ok_pins t) /\ pcid q = CData 3) /\
+  (exists t, shard_run swallow_env_put swallow_stream 3 = (ROk (CData 3), t) /\
+             Exists (fun x => fst (fst x) = CData 1 /\ snd x = None) (puts t) /\
+             flat_map (fun p => flatten_data (pcid p)) (filter is_shard_pin (ok_pins t)) = [1; 2; 3]).
+Proof. exact importer_swallow_refuted_l. Qed.
+Print Assumptions importer_swallow_refuted.
 
 (* non-vacuity: a concrete sharded add with two shards, a dropped destination and a duplicate block succeeds *)
 Example sharded_example :
